@@ -596,6 +596,9 @@ def s_oracle(case):
                 if b:
                     return ("HeadersReceived carries headers breaking rule '%s' (op %d)" % (b, i),
                             {"site": "h3-event", "rule": b, "kind": KINDS[kind]})
+                if declared_content_length([tuple(h) for h in e.headers]) == "conflicting":
+                    return ("HeadersReceived carries conflicting content-length declarations (op %d)" % i,
+                            {"site": "h3-event", "kind": KINDS[kind], "rule": "content-length-conflicting"})
                 if kind != 3:
                     declared = declared_content_length([tuple(h) for h in e.headers])
                     if declared == "invalid":
@@ -606,9 +609,6 @@ def s_oracle(case):
                 if isinstance(declared, int) and declared != body:
                     return ("stream_ended event with declared content-length %d but %d body bytes delivered (op %d)" % (declared, body, i),
                             {"site": "h3-event", "rule": "content-length-mismatch"})
-                if declared == "conflicting":
-                    return ("stream ended after conflicting content-length declarations (op %d)" % i,
-                            {"site": "h3-event", "rule": "content-length-conflicting"})
         if op[0] == "h":
             state = "after-headers" if state == "initial" else "done"
         # a complete message whose FIN was delivered with a wrong body size must have been refused
@@ -856,6 +856,9 @@ def e_oracle(case):
         if r[0] == "ok":
             got = [tuple(x) for x in r[1].headers]
             b2 = rule_broken(kind, got)
+            if declared_content_length(got) == "conflicting":
+                return ("%s event produced for a %s block with conflicting content-length declarations: %r" % (type(r[1]).__name__, KINDS[kind], got),
+                        {"site": "h3-event", "kind": KINDS[kind], "rule": "content-length-conflicting"})
             if b2 or broken:
                 return ("%s event produced for a %s block breaking rule '%s': %r" % (type(r[1]).__name__, KINDS[kind], b2 or broken, got),
                         {"site": "h3-event", "kind": KINDS[kind], "rule": b2 or broken})
